@@ -699,7 +699,7 @@ theorem star_member_dropped_fixed :
     weight drops by exactly `min q (weight of the ballots grading c)` (one quota, or all supporters if they are fewer),
     the weight is taken grade group by grade group from the top (`findBestVotes_spec`: each step addresses exactly the
     ballots giving `c` the highest remaining grade), and the winner's grades then leave the ballots without changing the
-    total.  (That the loop can fail to return at all is the open finding: `allocated_*_witness`.) -/
+    total.  (When no ballot grades anybody any more the loop refuses: `allocated_ballots_exhausted_refused`.) -/
 theorem allocated_spends_one_quota (cv : WProfile) (c : Cand) (q : Rat) (hq : 0 ≤ q) (hwf : WFW cv)
     (cv' : WProfile) (h : subtractVotes cv c 1 q = .ok cv') :
     totalW cv' = totalW cv - min q (supportW cv c) := by
@@ -737,8 +737,8 @@ def ScoreProfileWF (votes : SProfile) : Prop :=
   (votes.map (·.1)).Nodup ∧ (∀ bn ∈ votes, 0 < bn.2) ∧ ∀ bn ∈ votes, (bn.1.map (·.1)).Nodup
 
 /-- **Allocated score equals its round-by-round definition** on the whole domain where the definition is defined —
-    `allocSpec … = some ws` is the decidable hypothesis "every round has a strict winner and no ballot runs out"
-    (outside it the code enters its tie branches or raises, see the open findings).  There the selector returns exactly
+    `allocSpec … = some ws` is the decidable hypothesis "every round has a strict winner" (outside it the code enters
+    its tie branches, or refuses with VotingSystemError when no remaining ballot grades anybody).  There the selector returns exactly
     the winners of the definition: seat by seat the candidate with the strictly greatest weighted score sum
     `Σ grade · weight`, one quota of its strongest supporters spent (grade groups from the top, the last one scaled),
     its grades then removed from the ballots. -/
@@ -770,10 +770,12 @@ theorem allocated_eq_spec (quota : Rat → Nat → Rat) (votes : SProfile) (n : 
     | cons w rest ih => simp [List.flatMap_cons, ih]
   exact flat ws
 
-/-- non-vacuity: a three-seat run inside the domain, and the witnesses of the crashes lie outside it -/
+/-- non-vacuity: a three-seat run inside the domain; so is the bullet-ballot profile that used to crash; the profile whose
+    ballots are exhausted before the second seat lies outside it (the code refuses) -/
 example : allocSpec Gen.Quota.hare [([(0, 5), (1, 2), (2, 1)], 2), ([(0, 1), (1, 3), (2, 0)], 2)] 3 = some [0, 1, 2] := by
   decide +kernel
-example : allocSpec Gen.Quota.hare [([(0, 5)], 2), ([(1, 3)], 1)] 2 = none := by decide +kernel
+example : allocSpec Gen.Quota.hare [([(0, 5)], 2), ([(1, 3)], 1)] 2 = some [0, 1] := by decide +kernel
+example : allocSpec Gen.Quota.droop [([(1, 2)], 2), ([(0, 4), (1, 3)], 1)] 2 = none := by decide +kernel
 example : ScoreProfileWF [([(0, 5), (1, 2), (2, 1)], 2), ([(0, 1), (1, 3), (2, 0)], 2)] := by
   refine ⟨by decide +kernel, ?_, ?_⟩ <;> intro bn hbn <;> simp at hbn <;> rcases hbn with rfl | rfl <;> decide +kernel
 
@@ -811,13 +813,19 @@ theorem mj_default_tiebreak_scale_witness :
     majorityJudgment .default (plainCfg .medianLow) [([(1, 1), (2, 2), (3, 1)], 6), ([(3, 2)], 3)] 2
       = .ok [Slot.cand 2, Slot.cand 3] := by decide +kernel
 
-/-- Allocated score: a ballot that grades only the elected candidate makes the next round raise `ValueError` -/
-theorem allocated_empty_ballot_witness :
-    allocatedSelector Gen.Quota.hare [([(0, 5)], 2), ([(1, 3)], 1)] 2 = .error .valueError := by decide +kernel
+/-- fix PENDING (notes/fix_C12_allocated_score_refusal.diff): a ballot that grades only the elected candidate no longer
+    crashes the search for the strongest supporters (before: `ValueError` from the `min()` bootstrap) -/
+theorem allocated_empty_ballot_fixed :
+    allocatedSelector Gen.Quota.hare [([(0, 5)], 2), ([(1, 3)], 1)] 2 = .ok [Key.cand 0, Key.cand 1] := by decide +kernel
 
-/-- Allocated score: `IndexError` when the remaining ballots grade nobody -/
-theorem allocated_ballots_run_out_witness :
-    allocatedSelector Gen.Quota.droop [([(1, 2)], 2), ([(0, 4), (1, 3)], 1)] 2 = .error (.other "IndexError") := by
+/-- fix PENDING: when no remaining ballot grades anybody while seats remain, the declared refusal is raised (before:
+    `IndexError` from `get_n_best({}, 1)[0]`) -/
+theorem allocated_ballots_exhausted_refused :
+    allocatedSelector Gen.Quota.droop [([(1, 2)], 2), ([(0, 4), (1, 3)], 1)] 2 = .error .votingSystemError := by
   decide +kernel
+
+/-- the only error the allocated-score loop itself produces is the declared refusal (the spending never raises) -/
+theorem allocated_spending_never_raises (cv : WProfile) (c : Cand) : ∃ best, findBestVotes cv c = .ok best :=
+  findBestVotes_ok cv c
 
 end VL.C12
